@@ -37,7 +37,14 @@ def gen_spec(rng: random.Random, big: bool) -> dict:
     rcvs = [rng.choice(ctxs[1:] if rng.random() < 0.8 else ctxs) for _ in range(nrcv)]
     live_ctx = set(ctxs)
     live_obj = {(c, o) for c, os_ in objs.items() for o in os_}
-    conns = {(a, p) for a in ctxs for p in LINKS[a] if p in ctxs}
+    # who may connect to whom: the base chain plus reverse directions (both directions between a pair, rings)
+    links = {a: [p for p in LINKS[a] if p in ctxs] for a in ctxs}
+    for a in ctxs:
+        for p in LINKS[a]:
+            if p in ctxs and rng.random() < 0.4:
+                links[p].append(a)
+    LINKS_ = links
+    conns = {(a, p) for a in ctxs for p in LINKS_[a]}
     subd = set()           # (r, pc, pn, sg) the generator believes subscribed
     steps = []
     nsteps = rng.randint(3, 10 if big else 7)
@@ -65,7 +72,7 @@ def gen_spec(rng: random.Random, big: bool) -> dict:
             conns.discard((a, p))
             subd = {s for s in subd if not (rcvs[s[0]] == a and s[1] == p)}
         if 0.46 <= x < 0.56:
-            cand = sorted({(a, p) for a in live_ctx for p in LINKS[a] if p in live_ctx} - conns)
+            cand = sorted({(a, p) for a in live_ctx for p in LINKS_[a] if p in live_ctx} - conns)
             if cand:
                 (a, p) = rng.choice(cand)
                 main.append(["connect", a, p])
@@ -93,11 +100,11 @@ def gen_spec(rng: random.Random, big: bool) -> dict:
                     continue
                 y = rng.random()
                 # publishers this receiver's context can name: its own and those of its servers (connected or not)
-                targets = [(c, o) for c, os_ in objs.items() for o in os_ if c == a or c in LINKS[a]]
-                if removed_now is not None and rng.random() < 0.5 and (removed_now[0] == a or removed_now[0] in LINKS[a]):
+                targets = [(c, o) for c, os_ in objs.items() for o in os_ if c == a or c in LINKS_[a]]
+                if removed_now is not None and rng.random() < 0.5 and (removed_now[0] == a or removed_now[0] in LINKS_[a]):
                     targets = [removed_now]          # race a subscribe against the removal of that very publisher
                 if y < 0.08:
-                    pc = rng.choice([a] + [p for p in LINKS[a]]) if True else a
+                    pc = rng.choice([a] + [p for p in LINKS_[a]])
                     ops.append(["subghost", r, pc])
                     continue
                 if not targets:
@@ -106,13 +113,13 @@ def gen_spec(rng: random.Random, big: bool) -> dict:
                 sg = rng.choice(SIGS)
                 key = (r, pc, pn, sg)
                 if key in subd and y < 0.75:
-                    ops.append(["unsub", r, pc, pn, sg])
+                    ops.append(["unsub", r, pc, pn, sg, rng.choice([0, 1, 3])])
                     subd.discard(key)
                     if rng.random() < 0.35:      # re-subscribe at once: the unsubscribe request may still be pending
-                        ops.append(["sub", r, pc, pn, sg])
+                        ops.append(["sub", r, pc, pn, sg, rng.choice([0, 1, 3])])
                         subd.add(key)
                 elif key not in subd:
-                    ops.append(["sub", r, pc, pn, sg])
+                    ops.append(["sub", r, pc, pn, sg, rng.choice([0, 1, 3])])
                     subd.add(key)
                 if rng.random() < 0.3:
                     ops.append(["pause", rng.randint(1, 5)])
@@ -120,7 +127,7 @@ def gen_spec(rng: random.Random, big: bool) -> dict:
                 lanes.append(ops)
         if main or lanes:
             steps.append({"main": main, "lanes": lanes})
-    return {"ctxs": ctxs, "objs": objs, "rcvs": rcvs, "steps": steps, "policy": rng.choice(["weighted", "pct", "pct"])}
+    return {"ctxs": ctxs, "objs": objs, "rcvs": rcvs, "links": links, "steps": steps, "policy": rng.choice(["weighted", "pct", "pct"])}
 
 
 # ---------------------------------------------------------------------------
@@ -163,8 +170,9 @@ def run_c08(seed, spec: dict, change_points=None, trace_handler: bool = False, p
             tr.active = True
             live = set(spec["ctxs"])
             conns = set()
+            links = spec.get("links") or LINKS
             for a in spec["ctxs"]:
-                for p in LINKS[a]:
+                for p in links[a]:
                     if p in ctxs:
                         w.connect(ctxs[a], ctxs[p])
                         conns.add((a, p))
@@ -328,13 +336,17 @@ def run_c08(seed, spec: dict, change_points=None, trace_handler: bool = False, p
                             except BaseException as e:  # noqa
                                 results.append((op, e))
                             continue
-                        (kind, r, pc, pn, sg) = op
+                        (kind, r, pc, pn, sg) = op[:5]
+                        v = op[5] if len(op) > 5 else 0
                         c = ctxs[spec["rcvs"][r]]
+                        # spelling of the call: "" for the local context (v = 1), SignalManager directly (v = 3)
+                        spelled = "" if (v == 1 and pc == spec["rcvs"][r]) else pc
+                        target = c._signal_manager if v == 3 else c
                         try:
                             if kind == "sub":
-                                c.subscribe_signal(pc, pn, sg, rcvs[r])
+                                target.subscribe_signal(spelled, pn, sg, rcvs[r])
                             else:
-                                c.unsubscribe_signal(pc, pn, sg, rcvs[r])
+                                target.unsubscribe_signal(spelled, pn, sg, rcvs[r])
                             results.append((op, None))
                         except D.SchedAbort:
                             raise
@@ -384,7 +396,7 @@ def run_c08(seed, spec: dict, change_points=None, trace_handler: bool = False, p
                                 raise StepViolation("subscribe-to-missing-publisher-did-not-fail",
                                                     f"step {si}: subscribe to {op[2]}.ghost: {exc!r}")
                             continue
-                        (kind, r, pc, pn, sg) = op
+                        (kind, r, pc, pn, sg) = op[:5]
                         if kind == "sub" and exc is not None and not isinstance(exc, QMI_SignalSubscriptionException):
                             raise StepViolation("subscribe-raised:" + type(exc).__name__, f"step {si}: {op}: {exc!r}")
                         if kind == "unsub" and exc is not None:
@@ -392,7 +404,7 @@ def run_c08(seed, spec: dict, change_points=None, trace_handler: bool = False, p
                     # each (receiver, key) is touched by one lane only, so the completion order is the call order per key
                     for (op, exc) in results:
                         if op[0] in ("sub", "unsub"):
-                            (kind, r, pc, pn, sg) = op
+                            (kind, r, pc, pn, sg) = op[:5]
                             if kind == "unsub" or exc is not None:
                                 expected.discard((r, pc, pn, sg))
                             else:
